@@ -197,7 +197,7 @@ func buildC02TS(e *engine, p *rt.Package) {
 					_ = resp.Body.Close()
 					cr, cerr := drv.Call(map[string]any{"op": "ts_server_calls", "sid": sid})
 					if cerr != nil || !cr.OK() {
-						panic(fmt.Sprint("node driver: ", cerr, cr))
+						panic(infraError(fmt.Sprint(fmt.Sprint("node driver: ", cerr, cr))))
 					}
 					calls, _ := cr["calls"].([]any)
 					desc := fmt.Sprintf("ts-server %s %s body=%s", info.Verb, target, short(bodyText, 200))
